@@ -1,7 +1,7 @@
 """Obligations shared by C01 / C02 / C03 / C19: the graph-rewriting carriers under the sidecar contracts of contracts/graph.py."""
 import z3
 from vlib import core, pyvc
-from contracts import graph, performer, names
+from contracts import graph, performer, names, signature
 from replay import graph_native
 
 TU, DI, QI, QT = 'transformations/transformation_utils.py', 'transformations/dequant_insert.py', 'transformations/quant_insert.py', 'transformations/quantize_tensor.py'
@@ -116,6 +116,45 @@ def names_obligations(rep, prop):
             bad = [ob.label for ob, st, dt, det, mv in pyvc.decide_parallel(E, E.spec, timeout=20000) if st != 'proved']; rep.canary('_check_tensor_names_are_unique: names never recorded', bool(bad), str(bad[:3]))
         except pyvc.Unsupported as e: rep.canary('_check_tensor_names_are_unique: names never recorded', True, str(e))
     else: rep.canary('_check_tensor_names_are_unique: names never recorded', False, 'mutation site not found (stale canary)')
+    return obs
+
+def _sig_native(case):
+    import types, importlib
+    core.stub_package(); tp = importlib.import_module('ai_edge_quantizer.transformation_performer')
+    if case.get('signatures') is None: return dict(confirmed=False, inputs=case, note='no signatures')
+    NS = types.SimpleNamespace
+    sgs = [NS(outputs=list(o)) for o in case['new_outputs']]
+    sigs = [NS(subgraphIndex=sd['subgraphIndex'], outputs=None if sd['outputs'] is None else [NS(tensorIndex=t) for t in sd['outputs']]) for sd in case['signatures']]
+    model = NS(signatureDefs=sigs, subgraphs=sgs)
+    try: tp.TransformationPerformer._remap_signature_outputs(None, model, [list(o) for o in case['old_outputs']])
+    except Exception as e: return dict(confirmed=False, inputs=case, observed=f'raised {type(e).__name__}: {e}')
+    bad = []
+    for s_, (sd, sig) in enumerate(zip(case['signatures'], sigs)):
+        if sd['outputs'] is None: continue
+        old, new = case['old_outputs'][sd['subgraphIndex']], case['new_outputs'][sd['subgraphIndex']]
+        for k, t0 in enumerate(sd['outputs']):
+            want = new[old.index(t0)] if t0 in old else t0
+            if sig.outputs[k].tensorIndex != want: bad.append(f'signature {s_} output {k}: tensorIndex {sig.outputs[k].tensorIndex}, expected {want} (old graph outputs {old} -> new {new}, entry named tensor {t0})')
+    return dict(confirmed=bool(bad), inputs=case, violated=bad)
+def _sig_search(label):
+    import itertools
+    for old in ([5], [5, 6], [6, 5], [5, 5]):
+        for new in itertools.product((5, 6, 8, 9), repeat=len(old)):
+            for outs in itertools.permutations(old + [7], 2):
+                r = _sig_native(dict(signatures=[dict(subgraphIndex=0, outputs=list(outs))], old_outputs=[old], new_outputs=[list(new)]))
+                if r['confirmed']: return r
+    return None
+def signature_obligations(rep, prop):
+    obs = pyvc.verify(rep, prop, core.Fn(PERF, 'TransformationPerformer._remap_signature_outputs'), signature.RemapSignatureOutputs(), select=None,
+                      replay=lambda mv, label: _sig_native(mv), fallback=_sig_search)
+    src = core.read_source(PERF); a = "            tensor_map.tensorIndex = new_outputs[output_index]\n            break"
+    name = '_remap_signature_outputs: keeps scanning after the first match (break dropped)'
+    if a in src:
+        try:
+            E = pyvc.run_function(core.Fn(PERF, 'TransformationPerformer._remap_signature_outputs', src_override=src.replace(a, "            tensor_map.tensorIndex = new_outputs[output_index]")), signature.RemapSignatureOutputs())
+            bad = [ob.label for ob, st, dt, det, mv in pyvc.decide_parallel(E, E.spec, timeout=20000) if st != 'proved']; rep.canary(name, bool(bad), str(bad[:3]))
+        except pyvc.Unsupported as e: rep.canary(name, True, str(e))
+    else: rep.canary(name, False, 'mutation site not found (stale canary)')
     return obs
 
 def small_carriers(rep, prop):
